@@ -2,9 +2,10 @@ SPECIFICATION Spec
 CONSTANTS
   Methods = {"GET"}
   Versions = {"1.1"}
-  CTypes = {"default", "application/json; charset=utf-8", "image/png"}
+  CTypes = {"default", "image/png"}
   AEs = {"absent", "gzip", "identity"}
-  Pres = {"none", "vary", "ce"}
+  Pres = {"none", "ce"}
+  Resps = {"200", "204", "304"}
   Lens = {0, 1, 1023, 1024}
   Fill = 97
   MaxOps = 3
